@@ -652,6 +652,10 @@ def run(ctx):
         'fitness comparison is the C09 model (Fitness/Fitness.v), imported',
         'the evaluator passed to reproduce() is an oracle that returns evaluated individuals (contract of C05)',
     ]
+    if _PENDING:
+        pending = list(_PENDING)
+        del _PENDING[:]
+        _eval_replays(ctx, pending)
     groups = [('sel', gen_selection_cases(ctx)), ('eli', gen_elitism_cases(ctx)),
               ('inh', gen_inheritance_cases(ctx)), ('rep', gen_reproduction_cases(ctx))]
     for op, cases in groups:
@@ -661,12 +665,29 @@ def run(ctx):
     ctx.set_exhaustive('selection', False)
 
 
-def replay(ctx, payload):
+_PENDING = []   # corpus cases, evaluated in one batch per operator at the start of run()
+
+
+def _replay_cases(payload):
     v = payload.get('violation') or payload.get('first_disagreement') or payload
     case = v.get('case') if isinstance(v, dict) else None
     if not case or 'op' not in case:
-        return
+        return []
     case = {k: val for k, val in case.items() if k not in ('observed', 'exception')}
     # the operators are randomised: replay the input under several seeds of the implementation
-    cases = [dict(case, seed=case.get('seed', 0) + i) for i in range(20 if case['op'] != 'rep' else 1)]
-    EVAL[case['op']](ctx, cases, group='replay')
+    return [dict(case, seed=case.get('seed', 0) + i) for i in range(20 if case['op'] != 'rep' else 1)]
+
+
+def _eval_replays(ctx, cases):
+    for op in ('sel', 'eli', 'inh', 'rep'):
+        sub = [c for c in cases if c['op'] == op]
+        if sub:
+            EVAL[op](ctx, sub, group='replay')
+
+
+def replay(ctx, payload):
+    cases = _replay_cases(payload)
+    if 'kind' in payload:          # a replay file written by a failed check: evaluate now
+        _eval_replays(ctx, cases)
+    else:                          # corpus entry: run() follows, evaluate all of them together
+        _PENDING.extend(cases)
